@@ -132,6 +132,22 @@ func pruneToVerify.traverse
   modifies *ops
   ensures len(*ops) > old(len(*ops))
 
+// ---- tree API used by the balloon ------------------------------------------------
+// ASSUMED (the hyper tree's insertion/search are outside what is verified, see
+// DESIGN.md section 1): they need a non-empty bulk, may touch anything they
+// can reach, and report failures as errors.
+
+func HyperTree.Add
+  modifies everything
+func HyperTree.AddBulk
+  requires len(eventDigests) > 0
+  modifies everything
+func HyperTree.QueryMembership
+  modifies everything
+  ensures isnil(result_1) ==> result_0 != nil
+func HyperTree.Close
+  modifies everything
+
 // ---- proofs --------------------------------------------------------------------
 
 func AuditPath.Get
